@@ -80,7 +80,12 @@ def main():
                                      ensures="len(self.items) == 0 and is_fresh(self.items)", modifies=["param:self"], file="selftest")
     eng.contracts[S + "near_ok"] = dict(params={"a": "real", "b": "real"}, returns="bool",
                                         ensures="(not (a == b)) or result == True", modifies=[], file="selftest")
-    expect = {"Shelf.clear_new": True, "Shelf.clear_same": False, "near_ok": True, "strip_ok": True, "strip_bad": False, "global_bad": False, "drop_last": True, "both_tests": True, "bytes_vs_str": True, "default_bad": False, "chain_ok": True, "chain_bad": False, "append_ok": True, "append_bad": False, "count_ok": True, "count_bad": False, "mod_ok": True, "idx_bad": False, "tail_ok": True}
+    # a contract that says WHICH field may change is checked for leaving the others alone (callers assume exactly that)
+    eng.classes["Pair"] = {"class": "pyvc.selftest_samples.Pair", "fields": {"v": "int", "w": "int"}}
+    for nm in ("Pair.put_v", "Pair.put_v_and_more"):
+        eng.contracts[S + nm] = dict(params={"self": "Pair", "v": "int"}, returns="None", ensures="self.v == v",
+                                     modifies=["param:self"], havoc={"self.v": "=v"}, file="selftest")
+    expect = {"Pair.put_v": True, "Pair.put_v_and_more": False, "Shelf.clear_new": True, "Shelf.clear_same": False, "near_ok": True, "strip_ok": True, "strip_bad": False, "global_bad": False, "drop_last": True, "both_tests": True, "bytes_vs_str": True, "default_bad": False, "chain_ok": True, "chain_bad": False, "append_ok": True, "append_bad": False, "count_ok": True, "count_bad": False, "mod_ok": True, "idx_bad": False, "tail_ok": True}
     rc = 0
     for name, want in sorted(expect.items()):
         r = eng.verify(S + name)
